@@ -290,7 +290,9 @@ func New(m Mappers) *Parser {
 	).Map(p.m.ToQuantifier)
 
 	// char_in_range --> unicode_char | ascii_char | char
-	p.charInRange = p.unicodeChar.ALT(p.asciiChar, p.char).Map(p.m.ToCharInRange)
+	// An unescaped "]" always closes the character group, so it cannot be the bound of a range.
+	// Otherwise, a group followed by a dash, as in "[0-9]-[0-9]", is taken for the range "]-[".
+	p.charInRange = p.unicodeChar.ALT(p.asciiChar, p.char.Bind(comb.ExcludeRunes(']'))).Map(p.m.ToCharInRange)
 
 	// char_range --> char_in_range "-" char_in_range
 	p.charRange = p.charInRange.CONCAT(
